@@ -194,7 +194,7 @@ def cronEvery (p : Nat) : Cron := fun t => if p = 0 then none else some (t + p)
 
 /-- `*/p * * * * *`: the next second-of-minute that is a multiple of p, else second 0 of the next minute. -/
 def cronSec (p : Nat) : Cron := fun t =>
-  if p = 0 ∨ p > 59 then none else
+  if p = 0 ∨ p > 29 then none else
   let s' := (t % 60 / p + 1) * p
   if s' ≤ 59 then some (t / 60 * 60 + s') else some (t / 60 * 60 + 60)
 
